@@ -504,7 +504,7 @@ theorem TimeInv.closed : Closed (And2 Wf LifeInv) TimeInv where
   enterFiles := fun _ _ _ _ h _ _ => h.of_same (fun _ => rfl) h.checked (TCoreRel.refl rfl) (fun pc hpc => hpc)
   emitRead := fun _ _ _ _ h _ => h.ofEmit trivial
   emitIdle := fun _ _ _ _ h _ => h.ofEmit trivial
-  publish := fun _ _ now _ h => h.ofPublish now
+  publish := fun _ _ now _ h _ => h.ofPublish now
   fdtAdvance := fun _ _ now _ h _ _ => h.ofFdtAdvance now
   fileStart := fun _ _ _ _ tk _ hb h _ hfn => TimeInv.ofFileStart' tk _ rfl rfl hb.1 h hfn
   pkt := fun _ _ _ _ _ _ _ _ _ hb h _ hf _ hg he => h.ofPkt hb.1 hf hg he
@@ -521,7 +521,9 @@ theorem TimeInv.closedOps : ClosedOps (And2 Wf LifeInv) TimeInv where
     · exact h.ofEmit trivial
     · exact h.neutral (e := Ev.opRemove t true) trivial rfl (TCoreRel.refl rfl) (fun pc hpc => hpc)
   trigger := fun _ _ t ts hb h => h.ofTrigger t ts hb.2
-  emitPublish := fun _ _ _ _ h => h.ofEmit trivial
+  publishOp := fun s L now _ h =>
+    publishTry_elim (P := fun x => TimeInv x L) _ now ((h.ofEmit (e := Ev.opPublish now) trivial).ofPublish now)
+      (h.ofEmit trivial)
   complete := fun _ _ _ h => h.of_same (fun _ => rfl) h.checked (TCoreRel.refl rfl) (fun pc hpc => hpc)
 
 theorem TimeInv.init (cfg : Cfg) (tbl : List Nat) : TimeInv (Sched.init cfg tbl) [] where
